@@ -4,10 +4,12 @@ import (
 	"encoding/json"
 	"fmt"
 	"math/rand"
+	"strings"
 
 	"github.com/yorkie-team/yorkie/api/converter"
 	"github.com/yorkie-team/yorkie/pkg/document"
 	"github.com/yorkie-team/yorkie/pkg/document/change"
+	"github.com/yorkie-team/yorkie/pkg/document/crdt"
 	yjson "github.com/yorkie-team/yorkie/pkg/document/json"
 	"github.com/yorkie-team/yorkie/pkg/document/presence"
 	"github.com/yorkie-team/yorkie/pkg/document/time"
@@ -73,7 +75,7 @@ func (c07) NumCases(tier string, _ int64) int {
 }
 func (c07) Exhaustive(string) bool { return false }
 func (c07) Floors(string) []runner.Floor {
-	return []runner.Floor{{Stat: "calls_checked", Min: 100000}, {Stat: "scars", Min: 2000}, {Stat: "exhaustive_programs", Min: 10000}}
+	return []runner.Floor{{Stat: "calls_checked", Min: 100000}, {Stat: "scars", Min: 2000}, {Stat: "exhaustive_programs", Min: 10000}, {Stat: "calls_on_trees_with_inline_elements", Min: 2000}}
 }
 
 type c07Worker struct {
@@ -286,6 +288,13 @@ func (w *c07Worker) runRandom(res *runner.CaseResult, idx int) {
 		}
 		applied++
 		res.AddStat("calls_checked", 1)
+		if strings.HasPrefix(e.Op, "tree.") {
+			if t, ok := lp.S.RootObject().Get("tree").(*crdt.Tree); ok {
+				if x := t.ToXML(); strings.Contains(x, "<b") || strings.Contains(x, "<i") {
+					res.AddStat("calls_on_trees_with_inline_elements", 1)
+				}
+			}
+		}
 		res.AddSet("ops", e.Op)
 		if d := checkBoth(lp.S, m); d != "" {
 			eb, _ := json.Marshal(e)
